@@ -85,7 +85,6 @@ def ob_offer_task(vc):
     w = IWorld(vc)
     inst, t = w.inst, w.t
     inst._task = LL.Task(w.loop, None)  # as start() leaves it
-    vc.arm_cut(SD.ServiceInstance._offer_task, 1)
     o = vc.outcome(vc.drive, vc.body(SD.ServiceInstance._offer_task)(inst), w.log, None, True)
     offer = w.service.create_offer_entry(t.ANNOUNCE_TTL)
     stop_offer = w.service.create_offer_entry(0)
@@ -104,6 +103,11 @@ def ob_offer_task(vc):
     for i in range(t.REPETITIONS_MAX):
         expected.append(("sleep", (2**i) * t.REPETITIONS_BASE_DELAY))
         expected.append(("send", offer, None))
+    if vc.native and w.cyclic:
+        # a replay runs the real task until it is cancelled: the cyclic phase repeats
+        for _ in range(40):
+            expected.append(("sleep", t.CYCLIC_OFFER_DELAY))
+            expected.append(("send", offer, None))
     rest = log[1:]
     cancelled = ("cancel",) in rest
     if not cancelled:
